@@ -41,7 +41,7 @@ def budget(tier):
 def sizes(tier):
     if tier == "quick":
         return {"scenarios": 4, "R": 16, "S": 5000}
-    return {"scenarios": 40, "R": 16, "S": 30000}
+    return {"scenarios": 24, "R": 16, "S": 20000}
 
 
 def make_scenario(seed, i, tier):
@@ -205,6 +205,11 @@ def custom_main(args, tier, seed, budget_s):
                 continue
             n += 1
             store[case["si"]].append(res)
+            want = sz["R"] if case["round"] == 0 else 4 * sz["R"]
+            if len(store[case["si"]]) == want:
+                ok_, tab_ = judge(scns[case["si"]], store[case["si"]])
+                print(f"[C01] scenario {case['si']} round {case['round']} complete: {'ok' if ok_ else 'OUT'} "
+                      + " ".join(f"k{t['k']}:{t.get('mean')}(z={t.get('z')})" for t in tab_), flush=True)
             if res["nontrivial"]:
                 sigs.add(res["sig"])
             for key in ("probes", "faults", "stats"):
